@@ -5,7 +5,7 @@
    Scope of the statements: complete data whose cells fit the leaves (`data_ok`), and — for the
    gradient — rows on which every node value is non-zero (the code divides by child values). *)
 From Coq Require Import List Arith ZArith QArith Qcanon Bool Ring.
-From DV Require Import Model.Core Model.Clt Model.Leaves Model.Em Proofs.CoreFacts Proofs.EmFacts Proofs.EmGrad.
+From DV Require Import Model.Core Model.Clt Model.Leaves Model.Em Proofs.CoreFacts Proofs.EmFacts Proofs.EmGrad Proofs.EmWeight.
 Import ListNotations.
 Local Open Scope Qc_scope.
 
@@ -126,6 +126,29 @@ Proof.
   - intros k. reflexivity.
 Qed.
 
+(* The same statistic in its classical form.  For every valid table (DAGs included), sum node i with weights ws
+   and child position k: the root value, as a function of the weight w_{i,k} alone, is AFFINE with slope
+   v_k * g_i; hence  w_{i,k} * edge_stat i k = w_{i,k} * (d root / d w_{i,k}) / root, the expected count of the
+   latent choice "sum i selects child k" given the row (Darwiche's differential form of the posterior). *)
+Theorem C14_weight_derivative : forall (T : Type) (t0 t1 : T) (tadd tmul tsub tdiv : T -> T -> T),
+  semi_ring_theory t0 t1 tadd tmul (@eq T) ->
+  (forall a b, b <> t0 -> tdiv (tmul a b) b = a) ->
+  forall (dom : nat -> list Z) (gdens : T -> T -> nat -> Z -> T) (t : etable T) (r : row) (i : nat) (ws : list T) (v0 k : nat),
+  let lv := eleaf_val T t0 t1 tadd tmul tsub gdens in
+  let vs := evals T t0 t1 tadd tmul tsub gdens t r in
+  valid T t0 tadd dom (eleaf T) lv t -> (i < length t)%nat ->
+  nkind (nth i t (dummy_node T (eleaf T))) = KSum ws -> In v0 (scope_of T (eleaf T) t i) ->
+  (forall j, (j < length t)%nat -> nth j vs t0 <> t0) ->
+  (k < length ws)%nat -> (k < length (nkids (nth i t (dummy_node T (eleaf T)))))%nat ->
+  let root_at := fun y => nth (length t - 1) (vals T t0 t1 tadd tmul (eleaf T) lv (set_ws T t i (upd_w T k y ws)) r) t0 in
+  let vk := nth (nth k (nkids (nth i t (dummy_node T (eleaf T)))) 0%nat) vs t0 in
+  let gi := nth i (grads T t0 t1 tadd tmul tdiv t vs) t0 in
+  forall y, root_at y = tadd (root_at t0) (tmul (tmul vk gi) y).
+Proof.
+  intros T t0 t1 tadd tmul tsub tdiv SR Hdiv dom gdens t r i ws v0 k lv vs Hv Hi Hk Hsc Hnz Hkw Hkk.
+  exact (weight_affine T t0 t1 tadd tmul tdiv SR Hdiv dom lv t r i ws v0 k Hv Hi Hk Hsc Hnz Hkw Hkk).
+Qed.
+
 (* Responsibilities of a sum node: sum_k w_k * (v_k * g / r) = (sum_k w_k v_k) * g / r, and at the
    root (g = 1, r = own value <> 0) they sum to one. *)
 Theorem C14_resp_sum_one : forall ws vs g r : _,
@@ -143,3 +166,4 @@ Print Assumptions C14_structure_fixed.
 Print Assumptions C14_iter_valid.
 Print Assumptions C14_grad_affine.
 Print Assumptions C14_resp_sum_one.
+Print Assumptions C14_weight_derivative.
